@@ -27,6 +27,16 @@ CLAIMED = {
             'list length <= 3 with symbolic bounds (bounded stand-in, reported separately); A3 exact int(a/b); z3 non-linear '
             'arithmetic for local_bin_size facts; bp_chunked / blacklisted_binning_contigs wrappers not under contract yet.',
             '5/C17, appendix B.1-B.2'),
+    'C12': ('Proof of the per-record counting rule of count_fragments_binned for an arbitrary fetched record and arbitrary '
+            'matrix state (loop-body contract with frame: +1 in exactly the cell (bin containing the site, sample) iff the '
+            'record passes the property\'s rule and start <= site < end, nothing else changes), of read_counts (iff), of '
+            'generate_jobs (job intervals tile each contig), and of the lemma that sites owned by different jobs fall into '
+            'different bins (so the merge never meets a cell twice): together the matrix is independent of bins_per_job.',
+            'A4 pysam fetch returns each overlapping record once; sites further than max_fragment_size from the alignment are '
+            'outside the claim; obtain_counts merge loop and _generate_count_dict not under contract (the lemma states what '
+            'they need); mate_iter verified only for <=2 (thorough: 3) fetched records with symbolic flags/names (bounded '
+            'stand-in) under well-formed primary records (A7); worker schedules: A6.',
+            '5/C12'),
 }
 
 NOT_YET = 'check not built yet (framework under construction; see DESIGN.md section 5)'
